@@ -83,6 +83,10 @@ def run(cx):
     # must reach the state flush() acts on
     from props.shared import half_connection_clock
     half_connection_clock(cx, "C12.g")
+    # "not transmitted again once acknowledged / retransmitted until acknowledged" reads the per-fragment ack
+    # flags: setter and tester must address the same bit
+    from props.C04 import inst_fragment_flags
+    inst_fragment_flags(cx, "C12.h")
 
 
 def drop_guard(cx, iid):
